@@ -15,7 +15,7 @@ PYTHONPATH=$WT/src timeout 600 /venv/bin/python $SRC/demo.py >/tmp/confirm_$$.lo
 if ! git apply --3way "$SRC/patch.diff" >/dev/null 2>&1 && ! git apply "$SRC/patch.diff" 2>/dev/null && ! patch -p1 -s --fuzz=3 < "$SRC/patch.diff"; then
   echo "$ID-$NAME: PATCH-DOES-NOT-APPLY"; exit 3
 fi
-git diff > /tmp/confirm_$$.diff
+git diff HEAD > /tmp/confirm_$$.diff
 PYTHONPATH=$WT/src timeout 600 /venv/bin/python $SRC/demo.py >>/tmp/confirm_$$.log 2>&1; mut_rc=$?
 PYTHONPATH=$WT/src timeout 1500 /venv/bin/python -m pytest -q -p no:cacheprovider --timeout=900 -n 6 tests --deselect tests/decay/test_viewer.py > /tmp/confirm_$$.suite 2>&1
 PYTHONPATH=$WT/src timeout 600 /venv/bin/python -m pytest -q -p no:cacheprovider tests/decay/test_viewer.py >> /tmp/confirm_$$.suite 2>&1
